@@ -16,7 +16,14 @@ package http2
 // After the K operations the windows are opened and the scheduler is drained.
 // Reference model: one FIFO per stream (dropped on CloseStream) and one FIFO of control frames.
 //
-// Sensitivity (sh mut.sh, see bottom of the file for the list that was run).
+// Sensitivity, confirmed with sh mut.sh (quick tier):
+//   writesched.go shift: swap without resetting currPos (`q.nextQueue, q.currPos, q.currQueue[:0]`)
+//     -> caught by every history harness (Pop panics / control frames out of order / frames not popped)
+//   writesched_roundrobin.go CloseStream: drop `if ws.head == q { ws.head = q.next }`
+//     -> caught (Pop walks the ring from the pooled queue and never terminates: BOUND-HIT endless loop, exit 2)
+//   writesched_priority_rfc9218.go CloseStream: pool the queue without unlinking it from its ring -> caught (exit 2/1)
+//   writesched_random.go Pop: `if q.empty()` -> `if true` (queue dropped after every Pop) -> VIOLATION, replayed natively
+//   (writesched_priority_rfc9218.go CloseStream without queuePool.put is an equivalent mutant: not caught, as expected)
 
 func init() {
 	vfRegister("VerifC12_consume", VerifC12_consume)
